@@ -3,11 +3,22 @@ from contracts import perturbed as pt, droplets as dr, lemmas
 from pyvc.bounded import ContractSampling
 
 LEVEL = "proof"
+LEVEL_TEXT = ("Every series loop (interface distance, curvature, derivative, quadratic length) of the three perturbed classes is cut by an "
+              "inductive invariant 'accumulator == partial sum of the documented series', so distance, linearised curvature, interface "
+              "positions, triangulation vertices, the 2-D area/volume setter, the quadrature integrand of the 2-D surface and the dblquad "
+              "integrand/limits of the 3-D volume are proved equal to their spec for every mode count, amplitude vector, radius, centre and "
+              "direction (no bound). The harmonics helpers and the k<->(l,m) indexing are verified (NIA). Quadrature accuracy and the "
+              "first-order claims themselves rest on trusted geometry and are only sampled.")
+LEVEL_NOTE = ("A-FP; spec mathematics trusted: linearised mean curvature H = 1/R + (1/R) sum a_k (l^2+l-2)/2 Y_k (2-D: 1/(R(1-sum (n^2-1)...))), "
+              "2-D area pi R^2 (1 + sum a^2/2), first-order 3-D volume = sphere volume, definition of the real harmonics from scipy's sph_harm_y "
+              "(uninterpreted); assumed contracts: iterate_in_pairs (generator), number_array, dblquad argument convention, linspace, numpy "
+              "element-wise lifting; quadrature error not bounded by proof")
 CONTRACTS = [c.ident for c in (
     pt.SphericalIndexLM(), pt.SphericalIndexK(), pt.SphericalIndexCount(), pt.HarmonicReal(), pt.HarmonicRealK(),
     pt.HarmonicSymmetric(), pt.Distance2D(), pt.Curvature2D(), pt.SurfaceApprox2D(), pt.Volume2D(), pt.VolumeSetter2D(),
     pt.SurfaceArea2D(), pt.Distance3D(), pt.Curvature3D(), pt.DistanceAxi(), pt.CurvatureAxi(), pt.VolumeApprox3D(),
-    pt.VolumeApproxAxi(), pt.Volume3D())]
+    pt.VolumeApproxAxi(), pt.Volume3D(), pt.Position2D(), pt.Position3D(), pt.PositionAxi(), pt.PositionSpherical2(),
+    pt.PositionSpherical3(), pt.Triangulation())]
 LEMMAS = ["isqrt-unique-and-mode-index-bijection"]
 BOUNDED = [ContractSampling("perturbed-contracts-sampled", CONTRACTS,
                             "each method on 10 (quick) / 150 (thorough) seeded droplets: 0-8 modes incl. odd counts and zero amplitudes, radii 0.5-7")]
